@@ -76,7 +76,7 @@ func (ri *RInterp) termFacts(t string, s S) IBound {
 	if b.Rg != "" && (b.Lb == nil || *b.Lb < 0) {
 		b.Lb = rI64(0)
 	}
-	for _, k := range s.Keys() {
+	for k := range s.m {
 		if strings.HasPrefix(k, "rl:"+t+"|") {
 			if b.Rl == nil {
 				b.Rl = map[string]int64{}
@@ -220,7 +220,7 @@ func rSetLb(s S, t string, v int64) S {
 		}
 	}
 	if v >= 0 {
-		for _, k := range s.Keys() {
+		for k := range s.m {
 			if strings.HasPrefix(k, "ae:") && s.Get(k) == "if:"+t {
 				s = s.Set(k, "T")
 			}
@@ -229,7 +229,20 @@ func rSetLb(s S, t string, v int64) S {
 	return s
 }
 
+// rSetMin lowers an upper-bound fact.  Length-relative offsets are kept in
+// [-2, 2] and constant upper bounds above -2 (weaker facts are sound), so that
+// infeasible loop paths cannot ratchet facts down for ever.
 func rSetMin(s S, k string, v int64) S {
+	if strings.HasPrefix(k, "rl:") || strings.HasPrefix(k, "rc:") {
+		if v > 2 {
+			return s
+		}
+		if v < -2 {
+			v = -2
+		}
+	} else if v < -2 {
+		v = -2
+	}
 	if cur := rGetInt(s, k); cur == nil || *cur > v {
 		s = rSetInt(s, k, v)
 	}
@@ -283,7 +296,11 @@ func (ri *RInterp) applyLE(s S, A, B ast.Expr, c int64, ents map[ast.Expr]string
 		// A <= tB + oB + c  →  tB >= A - oB - c
 		d := -oB - c
 		if rAddOK(*bA.Lb, d) {
-			s = rSetLb(s, tB, *bA.Lb+d)
+			v := *bA.Lb + d
+			if _, isConst := ri.constOf(A); !isConst && v > 2 {
+				v = 2 // widened: a bound learnt from another variable
+			}
+			s = rSetLb(s, tB, v)
 			// a lower bound may complete a pending range fact
 		}
 	}
@@ -438,10 +455,10 @@ func (ri *RInterp) store(s S, t string, nb IBound) S {
 		s = rSetInt(s, "ub:"+t, *nb.Ub)
 	}
 	for _, e := range rSortedKeys(nb.Rl) {
-		s = rSetInt(s, "rl:"+t+"|"+e, nb.Rl[e])
+		s = rSetMin(s, "rl:"+t+"|"+e, nb.Rl[e])
 	}
 	for _, e := range rSortedKeys(nb.Rc) {
-		s = rSetInt(s, "rc:"+t+"|"+e, nb.Rc[e])
+		s = rSetMin(s, "rc:"+t+"|"+e, nb.Rc[e])
 	}
 	if nb.Rg != "" {
 		s = s.Set("rg:"+t, nb.Rg)
